@@ -1,0 +1,107 @@
+//go:build verif
+// +build verif
+
+package main
+
+// Translation validation hook of the verification framework (compiled only with the build tag
+// "verif"): with CAPNPC_GO_VERIF_ARITH set, the program serves calls of the pure integer
+// functions that gotrans translates, one per input line "name arg ..." (decimal uint64), and
+// prints "ok result ..." or "panic".
+
+import (
+	"bufio"
+	"fmt"
+	"os"
+	"strconv"
+	"strings"
+
+	"capnproto.org/go/capnp/v3"
+	"capnproto.org/go/capnp/v3/internal/schema"
+)
+
+func init() {
+	if os.Getenv("CAPNPC_GO_VERIF_ARITH") == "" {
+		return
+	}
+	in := bufio.NewScanner(os.Stdin)
+	in.Buffer(make([]byte, 1<<16), 1<<16)
+	out := bufio.NewWriter(os.Stdout)
+	for in.Scan() {
+		f := strings.Fields(in.Text())
+		if len(f) == 0 {
+			continue
+		}
+		a := make([]uint64, len(f)-1)
+		for i := range a {
+			v, err := strconv.ParseUint(f[i+1], 10, 64)
+			if err != nil {
+				fmt.Fprintln(os.Stderr, "verif_arith: bad argument", f[i+1])
+				os.Exit(2)
+			}
+			a[i] = v
+		}
+		fmt.Fprintln(out, verifArithCall(f[0], a))
+		out.Flush()
+	}
+	os.Exit(0)
+}
+
+func verifArithCall(name string, a []uint64) (res string) {
+	defer func() {
+		if e := recover(); e != nil {
+			res = "panic"
+		}
+	}()
+	newSeg := func() *capnp.Segment {
+		_, seg, err := capnp.NewMessage(capnp.SingleSegment(nil))
+		if err != nil {
+			fmt.Fprintln(os.Stderr, "verif_arith:", err)
+			os.Exit(2)
+		}
+		return seg
+	}
+	switch {
+	case name == "go_gen_Offset" && len(a) == 2:
+		// p.Field.Slot().Offset(), p.Bits
+		f, err := schema.NewRootField(newSeg())
+		if err != nil {
+			fmt.Fprintln(os.Stderr, "verif_arith:", err)
+			os.Exit(2)
+		}
+		f.SetSlot()
+		f.Slot().SetOffset(uint32(a[0]))
+		p := structUintFieldParams{Bits: uint(a[1])}
+		p.Field = field{Field: f}
+		return fmt.Sprintf("ok %d", p.Offset())
+	case name == "go_intbits" && len(a) == 1:
+		return fmt.Sprintf("ok %d", intbits(schema.Type_Which(a[0])))
+	case name == "go_intFieldDefaultMask" && len(a) == 3:
+		// v.IsValid(), v.Which() (int8..int64), intValue(v)
+		var v schema.Value
+		if a[0] != 0 {
+			var err error
+			v, err = schema.NewRootValue(newSeg())
+			if err != nil {
+				fmt.Fprintln(os.Stderr, "verif_arith:", err)
+				os.Exit(2)
+			}
+			switch schema.Value_Which(a[1]) {
+			case schema.Value_Which_int8:
+				v.SetInt8(int8(a[2]))
+			case schema.Value_Which_int16:
+				v.SetInt16(int16(a[2]))
+			case schema.Value_Which_int32:
+				v.SetInt32(int32(a[2]))
+			case schema.Value_Which_int64:
+				v.SetInt64(int64(a[2]))
+			default:
+				fmt.Fprintln(os.Stderr, "verif_arith: go_intFieldDefaultMask: which must be int8..int64")
+				os.Exit(2)
+			}
+		}
+		return fmt.Sprintf("ok %d", intFieldDefaultMask(v))
+	}
+	fmt.Fprintln(os.Stderr, "verif_arith: unknown function or wrong number of arguments:", name)
+	os.Exit(2)
+	return ""
+}
